@@ -153,7 +153,7 @@ PROPS['C13'] = dict(
 )
 
 PROPS['C16'] = dict(
-    prop_modules=['Vise.Props.C16'], lean_targets=['Vise.Props.C16'], suites=['asm'],
+    prop_modules=['Vise.Props.C16', 'Vise.Props.C16Segs'], lean_targets=['Vise.Props.C16', 'Vise.Props.C16Segs'], suites=['asm'],
     trusted=[
         "participle v2.0.0 (third-party lexer/parser generator) is modelled by hand for THIS grammar: first-matching-rule lexer, struct-tag grammar with PeekAny semantics for elided tokens, greedy optional groups, strconv.ParseUint base 0 for numeric captures; the rule patterns, struct tags and elided token types are regenerated from asm/asm.go and pinned by #guard, so a grammar edit breaks the build; the lexer is also compared token by token with a participle lexer built from the rules found in the source",
         "the independent reading of a source (Vise/AsmSpec.lean on the Lean side, specParse in the harness on the Go side) is transcribed by hand from doc/texinfo/instructions.texi; comment-only, blank-with-spaces and leading blank lines are not documented and are outside it",
